@@ -244,13 +244,14 @@ Section Refine.
   Lemma sim_step s a o : Rel s a ->
     Rel (fst (brun_op s o)) (fst (arun_op a o)) /\ snd (brun_op s o) = snd (arun_op a o).
   Proof.
-    intros R. destruct o as [r ok|i|i| | |cap ok].
+    intros R. destruct o as [r ok|i|i rok| | |cap ok].
     - split; [apply rel_record; exact R|].
       cbn [brun_op arun_op snd]. destruct (a_flush a - 1 <=? 0); reflexivity.
     - cbn [brun_op arun_op fst snd]. rewrite (records_from_rel s a i R). split; [exact R|reflexivity].
     - cbn [brun_op arun_op fst snd]. split; [|reflexivity].
       destruct R as [Hsz Hcap Hh Ht Hidx Hlen Hel Hfl Hkv].
       constructor; unfold reset_with_index, blen, distance_to_tail, a_next, zlen; cbn; try lia; try assumption; try reflexivity.
+      rewrite Hkv. reflexivity.
     - cbn [brun_op arun_op fst snd]. split; [exact R|]. unfold next_index. rewrite (r_index _ _ R). reflexivity.
     - cbn [brun_op arun_op fst snd]. split; [exact R|]. rewrite (first_index_rel _ _ R). reflexivity.
     - cbn [brun_op arun_op fst snd]. unfold restart. rewrite (r_kv _ _ R). split; [apply rel_new|reflexivity].
@@ -314,47 +315,46 @@ Section Refine.
     | [] => true
     | ORecord _ ok :: r => ok && faultfree r
     | ORestart _ ok :: r => ok && faultfree r
+    | OReset _ ok :: r => ok && faultfree r
     | _ :: r => faultfree r
     end.
-  Fixpoint noreset (ops : list (bop A)) : bool :=
-    match ops with [] => true | OReset _ :: _ => false | _ :: r => noreset r end.
-
   Definition LagInv (a : aspec A) : Prop :=
     1 <= a_flush a <= flush_every /\ a_next a = kv0 (a_kv a) + (flush_every - a_flush a).
 
   Lemma lag_init cap : LagInv (ainit cap).
   Proof. unfold LagInv, ainit, a_next, flush_every; cbn. rewrite flush_count_is_100. lia. Qed.
 
-  Lemma lag_step a o : LagInv a -> faultfree [o] = true -> noreset [o] = true -> LagInv (fst (arun_op a o)).
+  Lemma lag_step a o : LagInv a -> faultfree [o] = true -> LagInv (fst (arun_op a o)).
   Proof.
-    intros [Hf Hn] Hff Hnr. pose proof flush_every_pos as Hp.
-    destruct o as [r ok|i|i| | |cap ok]; cbn [arun_op fst]; try (split; assumption); try discriminate.
+    intros [Hf Hn] Hff. pose proof flush_every_pos as Hp.
+    destruct o as [r ok|i|i ok| | |cap ok]; cbn [arun_op fst]; try (split; assumption).
     - cbn in Hff. rewrite andb_true_r in Hff. subst ok.
       destruct (a_flush a - 1 <=? 0) eqn:E; unfold LagInv, a_next in *; cbn [fst a_flush a_kv a_base a_log kv0];
         rewrite ?app_length; cbn [length]; lia.
     - cbn in Hff. rewrite andb_true_r in Hff. subst ok.
+      unfold LagInv, a_next; cbn [fst a_flush a_kv a_base a_log length kv0]. lia.
+    - cbn in Hff. rewrite andb_true_r in Hff. subst ok.
       unfold LagInv, a_next, reload_index; cbn [fst a_flush a_kv a_base a_log length]. destruct (a_kv a); cbn [kv0]; lia.
   Qed.
 
-  Lemma lag_run ops : forall a, LagInv a -> faultfree ops = true -> noreset ops = true ->
-    LagInv (run_state arun_op a ops).
+  Lemma lag_run ops : forall a, LagInv a -> faultfree ops = true -> LagInv (run_state arun_op a ops).
   Proof.
-    induction ops as [|o ops IH]; intros a I Hff Hnr; cbn [run_state]; [exact I|].
+    induction ops as [|o ops IH]; intros a I Hff; cbn [run_state]; [exact I|].
     apply IH.
-    - apply lag_step; [exact I| |].
-      + destruct o; cbn in *; try reflexivity; apply andb_true_iff in Hff as [-> _]; reflexivity.
-      + destruct o; cbn in *; try reflexivity; discriminate.
+    - apply lag_step; [exact I|].
+      destruct o; cbn in *; try reflexivity; apply andb_true_iff in Hff as [-> _]; reflexivity.
     - destruct o; cbn in Hff; try exact Hff; apply andb_true_iff in Hff as [_ H]; exact H.
-    - destruct o; cbn in Hnr; try exact Hnr; discriminate.
   Qed.
 
+  (* the next index after a restart is above the old next index minus the flush interval, for every fault-free
+     history (ResetWithIndex persists the index it sets) *)
   Theorem restart_index_lag_pf cap ops cap' :
-    faultfree ops = true -> noreset ops = true ->
+    faultfree ops = true ->
     let s := run_state brun_op (binit cap) ops in
     next_index (buf (restart s cap' true)) > next_index (buf s) - Gen_C16.defaultFlushCount.
   Proof.
-    intros Hff Hnr s. pose proof (proj2 (sim_run ops _ _ (rel_init cap))) as R. fold s in R.
-    pose proof (lag_run ops _ (lag_init cap) Hff Hnr) as [Hf Hn].
+    intros Hff s. pose proof (proj2 (sim_run ops _ _ (rel_init cap))) as R. fold s in R.
+    pose proof (lag_run ops _ (lag_init cap) Hff) as [Hf Hn].
     unfold next_index. rewrite (r_index _ _ R), Hn. unfold restart; cbn [buf new_buf index].
     rewrite (r_kv _ _ R). unfold reload_index, flush_every, kv0 in *.
     destruct (a_kv (run_state arun_op (ainit cap) ops)); lia.
